@@ -77,14 +77,14 @@ def gen_cfg(rng):
             "origins": rng.choice([1, 2, 2, 3]), "requests_per_thread": rng.choice([1, 2, 2, 3]), "http2": rng.random() < 0.2,
             "switch_prob": rng.choice([0.05, 0.2, 0.5]), "modes": rng.choice([["read"], ["read", "read", "partial"]]),
             "policies": rng.choice([["default_policy"], ["default_policy", "closing_policy", "long_policy"]]),
-            "trace_lines": True}
+            "trace_lines": True, "hot": rng.random() < 0.4}
 
 
 def run_one(cfg, seed):
     """-> dict(results per thread, violations, stats)"""
     import httpcore
     rng = random.Random(seed)
-    sched = threadsched.Scheduler(seed, switch_prob=cfg["switch_prob"], trace_lines=cfg.get("trace_lines", True))
+    sched = threadsched.Scheduler(seed, switch_prob=cfg["switch_prob"], trace_lines=cfg.get("trace_lines", True), hot=cfg.get("hot", True))
     peers = []
     import scen
 
